@@ -5,6 +5,8 @@ package gen
 
 import (
 	"math"
+
+	"go.uber.org/zap/zapcore"
 	"strings"
 	"time"
 
@@ -21,6 +23,8 @@ type G struct {
 	FaultTarget int // -1: faults by probability; >=0: exactly that site fails
 	Faults      int // faults actually injected
 	Tags        map[string]int
+	// AtomicShadow[k] mirrors the level last requested for shared AtomicLevel k (see Enab.Shadow)
+	AtomicShadow []zapcore.Level
 }
 
 // Opts tunes a generator.
